@@ -25,5 +25,6 @@ GV_VEC(uint64_t, u64)
 
 #define GV_AT_U32(v, i) (*gv_vec_u32_ref(&(v), (i)))
 #define GV_AT_U64(v, i) (*gv_vec_u64_ref(&(v), (i)))
+#define GV_AT_U32P(v, i) (*gv_vec_u32_ref((v), (i)))
 #define GV_VEC_VALID(v, maxcap) (__CPROVER_is_fresh(v, sizeof(*(v))) && (v)->cap <= (maxcap) && (v)->size <= (v)->cap && __CPROVER_is_fresh((v)->data, (v)->cap * sizeof(*((v)->data))))
 #endif
